@@ -1545,6 +1545,10 @@ class BaseSpaceImpl(*_base_space_impl_base):
         for cells in self.cells.values():
             cells.clear_all_values(clear_input=True)
             cells.on_delete()
+        for ref in self.own_refs.values():
+            # Clear the values calculated by reading the references
+            # through attribute access to this space
+            self.model.clear_attr_referrers(ref)
         super().on_delete()
 
 
@@ -1940,11 +1944,17 @@ class UserSpaceImpl(*_user_space_impl_base):
                             refmode=refmode,
                             set_item=False)
         self._own_refs.set_item(name, ref)
+        if name in self.model.global_refs:
+            # The new reference shadows the global reference of the same
+            # name, which may have been read through this space
+            self.model.clear_attr_referrers(self.model.global_refs[name])
         return ref
 
     def on_del_ref(self, name):
-        self.own_refs[name].on_delete()
+        ref = self.own_refs[name]
+        ref.on_delete()
         self.own_refs.del_item(name)
+        self.model.clear_attr_referrers(ref)
 
     def on_rename(self, name):
         self.model.clear_obj(self)
